@@ -80,6 +80,7 @@ struct Res {
 	void *stack[4] = {nullptr, nullptr, nullptr, nullptr};   // shadow stack top at the end (crash/abort/nonterm)
 	void *fault_fn[2] = {nullptr, nullptr};                  // shadow stack top when the first fault fired
 	uint32_t nfn = 0;           // functions entered (distinct), when coverage was requested
+	uint32_t tolerated_double_free = 0;  // second free of a block under a policy that, like a production allocator, does not notice
 	uint32_t vg_errors = 0;     // memcheck errors counted during the run (worker started under valgrind only)
 	char msg[200] = {0};        // first diagnostic line / assertion text
 };
